@@ -296,6 +296,12 @@ namespace sk {
 // ================================================================ Ctx
 void Ctx::line(const std::string& l)
 {
+  if (const char* ef = getenv("SIMKIT_ECHO_FILE"))
+  {
+    // debugging aid for replays: the event log of every child is appended to a file
+    FILE* f = fopen(ef, "a");
+    if (f) { fprintf(f, "[%d] %s\n", (int)getpid(), l.c_str()); fclose(f); }
+  }
   if (fd < 0) return;
   std::string s = l;
   for (auto& c : s) if (c == '\n') c = ' ';
@@ -308,6 +314,7 @@ void Ctx::line(const std::string& l)
     off += (size_t)n;
   }
 }
+int g_cpuBudgetS = 12;
 static void cpuBudgetHandler(int)
 {
   if (g_eventFd >= 0)
@@ -330,7 +337,7 @@ static void armCpuBudget()
   struct itimerval it;
   memset(&it, 0, sizeof it);
   const char* e = getenv("SIMKIT_CPU_BUDGET_S");
-  it.it_value.tv_sec = e ? atoi(e) : 12;
+  it.it_value.tv_sec = e ? atoi(e) : g_cpuBudgetS;
   setitimer(ITIMER_VIRTUAL, &it, nullptr);
 }
 void Ctx::begin(long idx, const std::string& kind)
